@@ -125,6 +125,7 @@ def _pars(t):
 def run(report, tier):
     apirun.run_config(report, 'MC_C01', observer=observer, report_kinds=('S',))
     apirun.run_config(report, 'MC_C01M', observer=observer, report_kinds=('S',))
+    apirun.run_config(report, 'MC_C12', observer=observer, report_kinds=('S',), overrides={'Want': '<-MC_WantV'}, tag='params')      # several parameters, two of them with the same name
     if tier == 'thorough':
         apirun.run_config(report, 'MC_C01', observer=observer, report_kinds=('S',), overrides={'MaxCalls': 3, 'Fns': '<-MC_FnsSmall', 'ScalarLits': '<-MC_ScalarLitsSmall'}, tag='deep')
     return report.finish(
